@@ -224,6 +224,15 @@ def run(ctx):
         pairs.append(("l4 '[%d %s : %s] %s'%s c" % (k, a, b, tail, ln), "l4 '%s %s'%s c" % (" ".join([a + " " + b] * (k - 1) + [a]), tail, ln), "[n a : b] inside a chord", True))
         pairs.append(("l4 '[%d %s] %s'%s c" % (k, a, tail, ln), "l4 '%s %s'%s c" % (" ".join([a] * k), tail, ln), "[n body] inside a chord", True))
         pairs.append(("l4 Sub{ [%d %s : %s] %s } c" % (k, a, b, tail), "l4 Sub{ %s %s } c" % (" ".join([a + " " + b] * (k - 1) + [a]), tail), "[n a : b] inside Sub", True))
+    # a count given by a VARIABLE is the variable's value when the loop is entered: a body that changes the variable does not change
+    # the number of passes
+    for _ in range(n // 10):
+        k = rng.randrange(1, 6)
+        a = " ".join(rng.choice("cdefgab") for _ in range(rng.randrange(1, 3)))
+        upd = rng.choice(["NN=NN-1", "NN=NN+2", "NN=0", "NN=9", "NN++", "NN--"])
+        pairs.append(("INT NN=%d [=NN %s %s ] e" % (k, a, upd), "INT NN=%d %s  e" % (k, " ".join([a + " " + upd] * k)), "[=N body] with N changed inside", False))
+        b = rng.choice("cdefgab")
+        pairs.append(("INT NN=%d [=NN %s %s : %s ] e" % (k, a, upd, b), "INT NN=%d %s  e" % (k, " ".join([a + " " + upd + " " + b] * (k - 1) + [a + " " + upd])), "[=N a : b] with N changed inside", False))
     compare(ctx, pairs, "literal")
     # large counts (short bodies): 127 / 128 / 255 / 256 / 1000 are where a byte-sized or clamped counter would show
     pairs = []
